@@ -406,6 +406,15 @@ class Helper:
                                         seen)
                 elif v[0] == 'param':
                     out |= self._param_origins(func, e.id, stop, depth, seen)
+                elif v[0] == 'unpack' and isinstance(v[1], ast.Tuple) and \
+                        v[2] < len(v[1].elts):
+                    out |= self.origins(v[1].elts[v[2]], func, dn, stop, env,
+                                        depth + 1, seen)
+                elif v[0] == 'unpack' and isinstance(v[1], ast.Call) and \
+                        self._tuple_returns(v[1], func, v[2]):
+                    for g, rn, elt in self._tuple_returns(v[1], func, v[2]):
+                        out |= self.origins(elt, g, rn, stop, None,
+                                            depth + 1, seen)
                 elif v[0] in ('iter', 'with', 'unpack'):
                     out |= self.origins(v[1], func, dn, stop, env, depth + 1,
                                         seen)
@@ -518,6 +527,20 @@ class Helper:
         if isinstance(e, ast.JoinedStr):
             return {('format',)}
         return {('unknown', type(e).__name__)}
+
+    def _tuple_returns(self, call, func, i):
+        """(callee, return node, i-th element) for every ``return (a, b,
+        ...)`` of the internal callees of ``call``."""
+        out = []
+        for g in self.prog.resolve_call(call, func):
+            if isinstance(g, Func) and not g.is_ctor_call:
+                gcfg = self.cfgs.get(g)
+                for rn in gcfg.nodes:
+                    if rn.kind == 'return' and rn.ast.value is not None and \
+                            isinstance(rn.ast.value, ast.Tuple) and \
+                            i < len(rn.ast.value.elts):
+                        out.append((g, rn, rn.ast.value.elts[i]))
+        return out
 
     def _has_attr_store(self, cname, attr):
         cls = self.prog.classes.get(cname)
